@@ -163,6 +163,14 @@ class Parseable(Generic[ParsedT], Writeable, metaclass=ABCMeta):
             return match.end(0) - start
         return 0
 
+    @classmethod
+    def _parse_int(cls, digits: bytes, buf: memoryview) -> int:
+        try:
+            return int(digits)
+        except ValueError as exc:
+            # more digits than sys.get_int_max_str_digits() allows
+            raise NotParseable(buf) from exc
+
     def __eq__(self, other: Any) -> bool:
         if isinstance(other, (bytes, memoryview)):
             return bytes(self) == other
